@@ -1,1 +1,4 @@
+import Beeb.Props.C01
 import Beeb.Props.C02
+import Beeb.Props.C04
+import Beeb.Props.C17
